@@ -1,13 +1,18 @@
 //! `simrun`: the simulator binary.  One process executes one shard of seeded runs of one engine,
 //! strictly one simulation at a time.
 
+mod c17;
+mod c17_run;
 mod c18;
 mod c18_run;
 mod cli;
+mod sendprobe;
 
 fn main() {
     let a = cli::parse_args();
     let code = match (a.prop.as_str(), a.mode.as_str()) {
+        ("C17", "run") => c17_run::run(&a),
+        ("C17", "replay") => c17_run::replay(&a),
         ("C18", "run") => c18_run::run(&a),
         ("C18", "replay") => c18_run::replay(&a),
         ("UTIL", "merge-hashes") => merge_hashes(&a),
